@@ -8,6 +8,7 @@ From PV Require Import lib.Sx lib.Str lib.Result.
 From PV Require Import model.TimeRead spec.SpecTime model.Chain spec.SpecChain proofs.ChainFacts proofs.ChainDocFacts proofs.ChainSrtDocFacts proofs.ChainVttDocFacts.
 From PV Require model.TimeWrite model.TextWrite model.TextNodes.
 From PV Require model.DfxpWriteDoc model.DfxpReadLines proofs.DfxpWriteDocFacts proofs.ChainDfxpDocFacts.
+From PV Require model.SamiWriteDoc model.SamiReadLines proofs.ChainSamiDocFacts.
 Import ListNotations.
 Open Scope Z_scope.
 
@@ -314,3 +315,34 @@ Example C08_ex_chain_with_dfxp :
   = Ok [(1000000, 2480000, [Str.lit "hello"; Str.lit "a b"]); (3600000000, 3600040000, [Str.lit "x y"])].
 Proof. vm_compute. repeat split; try reflexivity; try discriminate. Qed.
 End DfxpHop.
+
+(* ---- round 4: SAMI hops at DOCUMENT level (string level); chains over all five formats ---------------------------------
+   hop_doc FSami cs = the body of the SAMI document SAMIWriter prints for the captions (SamiWriteDoc, language en-US; the
+   whole text is compared with the real writer's in C02's run), read back by the string-level model of SAMIReader
+   (SamiText.sami_read_string for the times: tokens -> sync / paragraph machine -> back-filling; SamiReadLines for the
+   text lines of every paragraph with visible text). *)
+Module SamiHop.
+Import proofs.ChainSamiDocFacts.
+
+(* one SAMI hop, whole document: every caption comes back, in order, with the SAMI projection of its times (starts and
+   non-final ends floored to the ms, the last cue four seconds) and its text lines unchanged *)
+Theorem C08_sami_roundtrip_string : forall cs lo, cs <> [] -> 0 <= lo -> dom_u 1000 lo (times_of_caps cs) -> text_dom cs = true ->
+  hop_doc FSami cs = Ok (retimed (pi FSami (times_of_caps cs)) cs).
+Proof. exact sami_roundtrip_string. Qed.
+Print Assumptions C08_sami_roundtrip_string.
+
+(* EVERY chain of document hops over SRT / WebVTT / DFXP / SAMI / MicroDVD returns the spec's times (closed form:
+   C08_chain_closed_form) AND the unchanged text lines *)
+Theorem C08_chain_doc_text_five_formats : forall chain cs lo, cs <> [] -> 0 <= lo ->
+  dom_u 40000 lo (times_of_caps cs) -> text_dom cs = true -> srt_text_dom cs = true -> vtt_text_dom cs = true ->
+  exists out, run_doc chain cs = Ok out /\ times_of_caps out = run chain (times_of_caps cs) /\ map snd out = map snd cs.
+Proof. exact run_doc_text5. Qed.
+Print Assumptions C08_chain_doc_text_five_formats.
+
+Example C08_ex_chain_with_sami :
+  let cs := [(1000999, 2500000, [Str.lit "hello"; Str.lit "a b"]); (3600000000, 3600079999, [Str.lit "x y"])] in
+  dom_u 40000 0 (times_of_caps cs) /\ text_dom cs = true /\ srt_text_dom cs = true /\ vtt_text_dom cs = true /\
+  run_doc [FSami; FDfxp; FSrt; FSami; FMdvd; FVtt] cs
+  = Ok [(1000000, 2480000, [Str.lit "hello"; Str.lit "a b"]); (3600000000, 3604000000, [Str.lit "x y"])].
+Proof. vm_compute. repeat split; try reflexivity; try discriminate. Qed.
+End SamiHop.
